@@ -275,6 +275,23 @@ def run_history(cls, nested, init_cache, hist, seed):
             if bad:
                 key = "%s|%s@after:%s|stale or wrong result" % (cls, op, cause)
                 return [(key, "history %s: step %d (%s): %s" % (list(hist), i, op, bad))], {"nontrivial": nontrivial, "nobs": nobs}
+            if op in ("fwd", "inv", "fwd_bwd"):
+                # the caller owns what a call returns: it updates outputs and log-abs-det in place (as CouplingTransform does with
+                # the log-abs-det of its unconditional transform). The uncached transform returns fresh tensors, so this must be
+                # possible, and it must not reach the cache (the next observation of the history compares again).
+                try:
+                    for t in r[:2]:
+                        t.add_(1.0)
+                except Exception as e:
+                    try:
+                        for t in ref[:2]:
+                            t.add_(1.0)
+                        ok_ref = True
+                    except Exception:
+                        ok_ref = False
+                    if ok_ref:
+                        key = "%s|%s@after:%s|result cannot be updated in place (%s)" % (cls, op, cause, type(e).__name__)
+                        return [(key, "history %s: step %d (%s): in-place update of the returned tensors raised %s: %s -- the uncached transform's results support it" % (list(hist), i, op, type(e).__name__, str(e)[:160]))], {"nontrivial": nontrivial, "nobs": nobs}
             if (not s.sub.training) and s.sub.using_cache and op in ("fwd", "inv", "fwd_bwd"):
                 filled = True
         if op in CAUSES:
